@@ -73,3 +73,11 @@ package datamatrix
 //@   loop 1: use mulMono(0, inputX, multiple)
 //@   loop 1: use mulOne(mw)
 //@   loop 1: decreases mw - inputX
+
+// DataMatrixWriter.Encode: the symbol used for error correction and placement is looked up for the encoded length under the
+// caller's shape and size hints (the same constraints the high-level encoder padded for), C13
+//@ func (this *DataMatrixWriter) Encode(contents string, format gozxing.BarcodeFormat, width int, height int, hints map[gozxing.EncodeHintType]interface{}) (r *gozxing.BitMatrix, e error)
+//@   property C13
+//@   opt check=asserts
+//@   assert call(SymbolInfo_Lookup,0): arg0 == len(encoded) && arg1 == shape && arg2 == minSize && arg3 == maxSize && arg4
+//@   assert call(EncodeHighLevel,0): arg1 == shape && arg2 == minSize && arg3 == maxSize
